@@ -525,14 +525,18 @@ def _tab(cols, none_for_empty=True):
 def multimerge_calls(rng):
     while True:
         k = rng.randint(2, 4)
+        on = rng.choice(["key", "index", "key"])
+        with_suffixes = rng.random() < 0.5
         tabs = []
         for t in range(k):
             keys = rng.sample(["a", "b", "c", "d", "e"], rng.randint(1, 4))
-            tabs.append(_tab({"key": keys, f"val{t}" if rng.random() < 0.5 else "val": [f"{x}{t}" for x in keys]}, False))
-        rec = {"dfs": seq(tabs, "list"), "on": {"t": "const", "v": rng.choice(["key", "index", "key"])},
-               "suffixes": rng.choice([NONE, seq([S(f"s{t}") for t in range(k)], "list")]),
+            # without per-table suffixes the value columns must be distinct (pandas refuses joins that would duplicate names)
+            vname = "val" if with_suffixes else f"val{t}"
+            d = {"key": keys, vname: [f"{x}{t}" for x in keys]}
+            tabs.append(py(f"pd.DataFrame({d!r})" + (".set_index('key')" if on == "index" else "")))
+        yield {"dfs": seq(tabs, "list"), "on": {"t": "const", "v": on},
+               "suffixes": seq([S(f"s{t}") for t in range(k)], "list") if with_suffixes else NONE,
                "kwargs": {"t": "dict", "items": ({} if rng.random() < 0.6 else {"how": {"t": "const", "v": rng.choice(["inner", "outer", "left"])}})}}
-        yield rec
 
 
 @scope("standardize_calls")
@@ -558,3 +562,38 @@ def standardize_calls(rng):
         if rng.random() < 0.1:
             rec["df_old"], rec["df"] = _tab({"CDR3B": [rng.choice(cdr3) for _ in range(n)], "x": ["1"] * n}), rng.choice([NONE, rec["df"]])
         yield rec
+
+
+@scope("graph_clustering_calls")
+def graph_clustering_calls(rng):
+    pool = ["AAA", "AAC", "ACC", "CCC", "GGG", "GGA", "TTT", "AAA", "CCA", "TTA", "GTA"]
+    import pyrepseq as prs
+    for _ in range(300):
+        n = rng.randint(1, 8)
+        seqs = [rng.choice(pool) for _ in range(n)]
+        trip = prs.nearest_neighbor(seqs, max_edits=rng.choice([1, 1, 2]))
+        yield {"adjacency_matrix": seq([tup(I(a), I(b), R(d)) for a, b, d in trip], "list"),
+               "nodes": seq([S(x) for x in seqs], rng.choice(["list", "ndarray"])),
+               "clustering": {"t": "const", "v": rng.choice(["cc", "cc", "fastgreedy", "multilevel", "leiden"])},
+               "kwargs": {"t": "dict", "items": {}}}
+
+
+@scope("hierarchical_calls")
+def hierarchical_calls(rng):
+    pool = ["CASSF", "CASSL", "CAVSF", "CASSLF", "CATTF", "CASSF", "CAAAF", "CSARF"]
+    B = lambda v: {"t": "const", "v": v}
+    for _ in range(120):
+        n = rng.randint(2, 7)
+        xs = [rng.choice(pool) for _ in range(n)]
+        kind = rng.choice(["list", "ndarray", "table", "table2", "tuple"])
+        if kind == "table":
+            s_ = table({"CDR3A": xs, "CDR3B": list(reversed(xs))})
+        elif kind == "table2":
+            s_ = table({"TRBV": ["TRBV19*01"] * n, "CDR3B": xs})
+        elif kind == "tuple":
+            s_ = tup(seq([S(x) for x in xs], "list"), seq([S(x) for x in reversed(xs)], "list"))
+        else:
+            s_ = seq([S(x) for x in xs], kind)
+        yield {"seqs": s_, "metric": NONE,
+               "linkage_kws": {"t": "dict", "items": rng.choice([{"method": B("average"), "optimal_ordering": B(True)}, {"method": B("single")}])},
+               "cluster_kws": {"t": "dict", "items": rng.choice([{"t": B(6), "criterion": B("distance")}, {"t": B(2), "criterion": B("maxclust")}])}}
